@@ -1481,6 +1481,11 @@ def permuted(rows_, positions, perm):
     return out
 
 
+def without_graphics(rows_):
+    '''The rows without the diagram layout tables (GD_*, DIM_*), which no generator reads.'''
+    return [r for r in rows_ if not r.t.startswith(('GD_', 'DIM_'))]
+
+
 def reversed_rows(rows_):
     g = [r for r in rows_ if r.g]
     return g + [r for r in reversed(rows_) if not r.g]
